@@ -35,6 +35,10 @@ pub struct GenOpts {
     pub pos_and_cmd: bool,
     /// `construct!([cmd, .., words])`: commands and positionals as alternatives of one level
     pub cmd_or_words: bool,
+    /// `--color=WHEN | --color`: alternatives that share names and help, differ in kind/metavar
+    pub twins: bool,
+    /// `fallback_to_usage()` on some levels
+    pub usage_fallback: bool,
     /// custom help/version flag names
     pub custom_help: bool,
     /// chains of `adjacent()` commands (`cmd1 --a cmd2 --b cmd1 ..`)
@@ -67,6 +71,8 @@ impl GenOpts {
             pure_fail: false,
             pos_and_cmd: false,
             cmd_or_words: false,
+            twins: false,
+            usage_fallback: false,
             custom_help: false,
             adjacent_cmds: false,
         }
@@ -96,6 +102,8 @@ impl GenOpts {
             pure_fail: false,
             pos_and_cmd: false,
             cmd_or_words: false,
+            twins: false,
+            usage_fallback: false,
             custom_help: false,
             adjacent_cmds: false,
         }
@@ -506,6 +514,9 @@ impl<'a> Pool<'a> {
         if self.rng.chance(1, 3) {
             o.version = Some(format!("{}.{}.{}", id, self.rng.below(10), self.rng.below(10)));
         }
+        if self.o.usage_fallback && self.rng.chance(1, 4) {
+            o.fallback_to_usage = true;
+        }
         if self.o.custom_help && self.rng.chance(1, 5) {
             let mut n = Names::default();
             if self.rng.chance(1, 2) {
@@ -706,6 +717,36 @@ impl<'a> Pool<'a> {
         }
     }
 
+    /// `--color=WHEN | --color` / `-s=BYTES | -s=PERCENT`: two visible items of one level with the
+    /// same names and the same (or no) help text that differ in kind or in metavariable
+    pub fn twin_group(&mut self) -> Spec {
+        let mut a = self.arg_item();
+        if let Leaf::Arg { adjacent, .. } = &mut a.leaf {
+            *adjacent = false;
+        }
+        let id = self.id();
+        let leaf = match (&a.leaf, self.rng.chance(1, 2)) {
+            (Leaf::Arg { ty, .. }, true) => Leaf::Arg {
+                ty: *ty,
+                metavar: format!("N{}", id),
+                adjacent: false,
+            },
+            _ => Leaf::ReqFlag,
+        };
+        let b = Item {
+            id,
+            names: a.names.clone(),
+            help: a.help.clone(),
+            leaf,
+        };
+        let alt = Spec::Alt(vec![Spec::Item(a), Spec::Item(b)]);
+        if self.rng.chance(1, 2) {
+            Spec::wrap(W::Optional { catch: false }, self.id(), alt)
+        } else {
+            alt
+        }
+    }
+
     /// Declare one short letter both as a flag and as an argument (ambiguous clusters such as
     /// `-qq`, `-vq` are then reported by the tokenizer)
     pub fn inject_ambiguous(&mut self, spec: &mut OptSpec) {
@@ -756,7 +797,9 @@ impl<'a> Pool<'a> {
                 break;
             }
             let r = self.rng.below(10);
-            if self.o.alts && r == 0 {
+            if self.o.twins && r == 3 && self.rng.chance(1, 2) {
+                fields.push(self.twin_group());
+            } else if self.o.alts && r == 0 {
                 fields.push(self.alt_group());
             } else if self.o.adjacent && r == 1 {
                 fields.push(self.adjacent_group());
@@ -780,9 +823,20 @@ impl<'a> Pool<'a> {
         if want_cmd && self.o.cmd_or_words && self.rng.chance(1, 4) {
             let n = self.rng.range(1, 2);
             let mut alts: Vec<Spec> = (0..n).map(|_| self.command(depth - 1)).collect();
-            let ps = self.positionals(self.o.max_pos);
-            if !ps.is_empty() {
-                alts.push(Spec::Seq(ps));
+            let shape = self.rng.below(3);
+            if shape != 1 {
+                let ps = self.positionals(self.o.max_pos);
+                if !ps.is_empty() {
+                    alts.push(Spec::Seq(ps));
+                }
+            }
+            if shape != 0 {
+                // an alternative made of named items only, listed before the commands (an enum
+                // whose first variant has optional fields): it succeeds on any line without
+                // consuming, the command that was entered still has to win
+                let k = self.rng.range(1, 2);
+                let named: Vec<Spec> = (0..k).map(|_| self.named_field()).collect();
+                alts.insert(0, Spec::Seq(named));
             }
             fields.push(Spec::Alt(alts));
             let mut o = OptSpec::plain(Spec::Seq(fields));
